@@ -19,7 +19,8 @@
    every other node is the explicit list of its children.  The abbreviation keeps terms of
    accumulators with thousands of items small; equality of terms is equality of hashes. *)
 EXTENDS Integers, Sequences, FiniteSets, TLC
-CONSTANTS A, MaxLen, Vals, MaxOps, HistOn, AddSizes, RewindPoints(_)
+CONSTANTS A, MaxLen, Vals, MaxOps, HistOn, AddSizes, RewindPoints(_),
+          Extras    \* BOOLEAN: reopen / proof checks / sequential sync are part of the alphabet (directed generators switch them off)
 VARIABLES items,    \* the sequence of added hashes (run-length encoded versions); the abstract content
           acc,      \* [len, roots]   accumulator object
           store,    \* [full, part] node hashes in the tree bucket: every completed node, and the incomplete nodes
@@ -243,9 +244,9 @@ KeySample(len) == {0, len - 1, len \div 2, ((len - 1) \div A) * A, (len \div A) 
 Next == \/ \E v \in Vals, n \in AddSizes : Can /\ Add(v, n)
         \/ \E l \in RewindPoints(acc.len) : Can /\ SetLen(l)
         \/ Can /\ Finalize
-        \/ Can /\ Reopen
-        \/ \E k \in KeySample(acc.len) : Can /\ HistOn /\ Check(k)
-        \/ Can /\ HistOn /\ SyncAll
+        \/ Can /\ Extras /\ Reopen
+        \/ \E k \in KeySample(acc.len) : Can /\ Extras /\ HistOn /\ Check(k)
+        \/ Can /\ Extras /\ HistOn /\ SyncAll
 Spec == Init /\ [][Next]_vars
 
 -----------------------------------------------------------------------------
